@@ -252,7 +252,12 @@ def run_property_types(pid, tier, seed):
     suite = types_suite(tier, seed)
     viol, cov = analyse_types(pid, suite)
     # a broken correspondence without a concrete witness: search the neighbourhood for a failing input
-    if viol and not any(v.get('concrete') for v in viol):
+    hanging = any(str(v.get('impl') or '').endswith(' hang') or 'not-run:too-many-hangs' in str(v.get('impl') or '') for v in viol)
+    if hanging:
+        # the implementation does not return on some case: running more cases against it would only wait for the
+        # watchdog again and again; the hanging case is the replay
+        cov['neighbourhood_search'] = 'skipped: the implementation hangs on the reported case'
+    if viol and not hanging and not any(v.get('concrete') for v in viol):
         bad_shapes = []
         for v in viol:
             if v.get('case'):
